@@ -335,3 +335,115 @@ Theorem sp_non_preemptive r tbl acts s tr :
 Proof.
   intros R H. apply (tx_wf_run (sp_cfg true r tbl) R acts (mq0 _) [] [] s tr (inv0 _) H).
 Qed.
+
+(* ---- C12 / C08 for SP: the generic theorems instantiated ---- *)
+Lemma sp_work_conserving : forall (r : Q) (tbl : list (Z * Z)) acts s tr t x,
+  0 < r -> (forall f p, In (f, p) tbl -> (0 < p)%Z) ->
+  sp_run r tbl acts = Some (s, tr) -> sp_act r tbl s (SAdvance t) = Some x ->
+  (exists p dl, mchild s = CTx p dl /\ mcur s = Some p /\ mnow s < dl) \/ (forall f, held_flow s f = []).
+Proof. intros r tbl acts s tr t x R Pos H A. exact (work_conserving0 (sp_cfg true r tbl) acts s tr t x (sp_cfg_ok true r tbl R Pos) H A). Qed.
+
+Lemma sp_one_at_a_time_tx_time : forall (r : Q) (tbl : list (Z * Z)) acts s tr,
+  0 < r ->
+  sp_run r tbl acts = Some (s, tr) -> tx_wf (sp_cfg true r tbl) None tr.
+Proof. intros r tbl acts s tr R H. exact (tx_wf_run0 (sp_cfg true r tbl) acts s tr R H). Qed.
+
+Lemma sp_back_to_back : forall (r : Q) (tbl : list (Z * Z)) acts1 s1 tr1 s2 o acts2 s3 tr2 t x,
+  0 < r -> (forall f p, In (f, p) tbl -> (0 < p)%Z) ->
+  sp_run r tbl acts1 = Some (s1, tr1) -> sp_act r tbl s1 SChildTimer = Some (s2, o) -> (exists f, held_flow s2 f <> []) ->
+  mq_run (sp_cfg true r tbl) s2 acts2 = Some (s3, tr2) -> (forall t', ~ In (SAdvance t') acts2) -> sp_act r tbl s3 (SAdvance t) = Some x ->
+  exists e p, In e tr2 /\ In (OStart p) (snd e) /\ fst (fst e) = mnow s2.
+Proof. intros r tbl acts1 s1 tr1 s2 o acts2 s3 tr2 t x R Pos H1 A2 Hh H2 NA A3. exact (back_to_back (sp_cfg true r tbl) acts1 s1 tr1 s2 o acts2 s3 tr2 t x (sp_cfg_ok true r tbl R Pos) H1 A2 Hh H2 NA A3). Qed.
+
+Lemma sp_flow_fifo : forall (r : Q) (tbl : list (Z * Z)) acts s tr f,
+  0 < r ->
+  sp_run r tbl acts = Some (s, tr) ->
+  exists rest, filter (is_flow f) (tr_puts tr) = filter (is_flow f) (tr_fwds tr) ++ rest.
+Proof. intros r tbl acts s tr f R H. exact (run_flow_fifo (sp_cfg true r tbl) acts s tr f R H). Qed.
+
+Lemma sp_exactly_once : forall (r : Q) (tbl : list (Z * Z)) acts s tr p,
+  0 < r ->
+  sp_run r tbl acts = Some (s, tr) ->
+  count_occ pkt_eq_dec (tr_puts tr) p
+  = (count_occ pkt_eq_dec (tr_fwds tr) p + count_occ pkt_eq_dec (held_flow s (flow p)) p)%nat.
+Proof. intros r tbl acts s tr p R H. exact (run_exactly_once (sp_cfg true r tbl) acts s tr p R H). Qed.
+
+Lemma sp_counters : forall (r : Q) (tbl : list (Z * Z)) acts s tr,
+  0 < r ->
+  sp_run r tbl acts = Some (s, tr) ->
+  (forall f, mqc s f = Z.of_nat (length (held_flow s f)) /\ mqb s f = sumsz (held_flow s f))
+  /\ mtotal s = zsum (fun f => Z.of_nat (length (held_flow s f))) (dflows (sp_cfg true r tbl))
+  /\ mcur s = match mchild s with CTx p _ => Some p | _ => None end
+  /\ mrecv s = Z.of_nat (length (tr_puts tr)).
+Proof. intros r tbl acts s tr R H. exact (run_counters (sp_cfg true r tbl) acts s tr R H). Qed.
+
+Lemma sp_never_spins : forall (r : Q) (tbl : list (Z * Z)) acts s tr,
+  0 < r -> (forall f p, In (f, p) tbl -> (0 < p)%Z) ->
+  sp_run r tbl acts = Some (s, tr) -> mpc s <> PSpin.
+Proof. intros r tbl acts s tr R Pos H. exact (never_spins0 (sp_cfg true r tbl) acts s tr (sp_cfg_ok true r tbl R Pos) H). Qed.
+
+Lemma sp_monitor_samples : forall (r : Q) (tbl : list (Z * Z)) acts s tr incl,
+  0 < r ->
+  sp_run r tbl acts = Some (s, tr) ->
+  sp_act r tbl s (SSample incl) =
+    Some (s, [OSample (map (fun f => let l := if incl then held_flow s f else waiting_flow s f in
+                                     (f, Z.of_nat (length l), sumsz l)) (dflows (sp_cfg true r tbl)))]).
+Proof. intros r tbl acts s tr incl R H. exact (monitor_samples0 (sp_cfg true r tbl) acts s tr incl R H). Qed.
+
+Lemma sp_conserves : forall (r : Q) (tbl : list (Z * Z)) acts s tr,
+  0 < r ->
+  sp_run r tbl acts = Some (s, tr) ->
+  (forall f, filter (is_flow f) (tr_puts tr) = filter (is_flow f) (tr_fwds tr) ++ held_flow s f)
+  /\ (forall p, In p (tr_puts tr) -> In (flow p) (flows (sp_cfg true r tbl))).
+Proof. intros r tbl acts s tr R H. exact (run_conserves (sp_cfg true r tbl) acts s tr R H). Qed.
+
+Lemma sp_drained : forall (r : Q) (tbl : list (Z * Z)) acts s tr,
+  0 < r -> (forall f p, In (f, p) tbl -> (0 < p)%Z) ->
+  sp_run r tbl acts = Some (s, tr) -> urgent (sp_cfg true r tbl) s = false -> (forall p dl, mchild s <> CTx p dl) ->
+  (forall f, held_flow s f = []) /\ (forall f, mqc s f = 0%Z /\ mqb s f = 0%Z) /\ mcur s = None /\
+  (forall f, filter (is_flow f) (tr_puts tr) = filter (is_flow f) (tr_fwds tr)) /\ mpc s <> PSpin.
+Proof. intros r tbl acts s tr R Pos H U Nd. exact (drained0 (sp_cfg true r tbl) acts s tr (sp_cfg_ok true r tbl R Pos) H U Nd). Qed.
+
+(* non-vacuity: a concrete admissible execution (observed on the real SP: four packets put at t = 0 before the wake-up
+   token is processed, 128 B at 1024 bit/s = 1 s each), its departure order, its visits, and the drained final state *)
+Definition sp_ex_acts : list saction :=
+  [SInit;
+   SPut (mkp 0 1 0 128 0);
+   SPut (mkp 1 2 0 128 0);
+   SPut (mkp 2 3 1 128 0);
+   SPut (mkp 3 4 0 128 0);
+   SStoreCb None;
+   SStoreCb (Some 0%Z);
+   SStoreCb (Some 0%Z);
+   SStoreCb (Some 1%Z);
+   SStoreCb (Some 0%Z);
+   SGetDone None;
+   SGetDone (Some 1%Z);
+   SChildInit;
+   SAdvance (1 # 1);
+   SChildTimer;
+   SChildEnd;
+   SGetDone (Some 0%Z);
+   SChildInit;
+   SAdvance (2 # 1);
+   SChildTimer;
+   SChildEnd;
+   SGetDone (Some 0%Z);
+   SChildInit;
+   SAdvance (3 # 1);
+   SChildTimer;
+   SChildEnd;
+   SGetDone (Some 0%Z);
+   SChildInit;
+   SAdvance (4 # 1);
+   SChildTimer;
+   SChildEnd].
+
+Example sp_example :
+  match sp_run (1024 # 1) [(0, 1); (1, 2)]%Z sp_ex_acts with
+  | Some (s, tr) => map uid (tr_fwds tr) = [2; 0; 1; 3]%nat /\ tr_visits tr = [(1, false); (0, false); (1, true); (1, false); (0, true); (1, false); (0, true); (1, false); (0, true)]%Z /\
+                    map (fun e => fst (fst e)) (filter (fun e => negb (nilb (forwards (snd e)))) tr) = [1; 2; 3; 4] /\
+                    urgent (sp_cfg true (1024 # 1) [(0, 1); (1, 2)]%Z) s = false /\ mpc s = PTok
+  | None => False
+  end.
+Proof. vm_compute. repeat split; reflexivity. Qed.
